@@ -37,3 +37,12 @@ Proofs/C11P.vos Proofs/C11P.vok Proofs/C11P.required_vos: Proofs/C11P.v Model/Ba
 Properties/C11.vo Properties/C11.glob Properties/C11.v.beautified Properties/C11.required_vo: Properties/C11.v Model/Base.vo Model/Schema.vo Model/Procs.vo Model/Inst.vo Spec/ProcTables.vo Proofs/Finite.vo Proofs/C11P.vo
 Properties/C11.vio: Properties/C11.v Model/Base.vio Model/Schema.vio Model/Procs.vio Model/Inst.vio Spec/ProcTables.vio Proofs/Finite.vio Proofs/C11P.vio
 Properties/C11.vos Properties/C11.vok Properties/C11.required_vos: Properties/C11.v Model/Base.vos Model/Schema.vos Model/Procs.vos Model/Inst.vos Spec/ProcTables.vos Proofs/Finite.vos Proofs/C11P.vos
+Spec/Canonical.vo Spec/Canonical.glob Spec/Canonical.v.beautified Spec/Canonical.required_vo: Spec/Canonical.v Model/Base.vo Model/Schema.vo Model/Wire.vo Model/Typed.vo
+Spec/Canonical.vio: Spec/Canonical.v Model/Base.vio Model/Schema.vio Model/Wire.vio Model/Typed.vio
+Spec/Canonical.vos Spec/Canonical.vok Spec/Canonical.required_vos: Spec/Canonical.v Model/Base.vos Model/Schema.vos Model/Wire.vos Model/Typed.vos
+Proofs/C03P.vo Proofs/C03P.glob Proofs/C03P.v.beautified Proofs/C03P.required_vo: Proofs/C03P.v Model/Base.vo Model/Schema.vo Model/Typed.vo Model/Inst.vo Spec/Tables.vo Spec/Canonical.vo
+Proofs/C03P.vio: Proofs/C03P.v Model/Base.vio Model/Schema.vio Model/Typed.vio Model/Inst.vio Spec/Tables.vio Spec/Canonical.vio
+Proofs/C03P.vos Proofs/C03P.vok Proofs/C03P.required_vos: Proofs/C03P.v Model/Base.vos Model/Schema.vos Model/Typed.vos Model/Inst.vos Spec/Tables.vos Spec/Canonical.vos
+Properties/C03.vo Properties/C03.glob Properties/C03.v.beautified Properties/C03.required_vo: Properties/C03.v Model/Base.vo Model/Schema.vo Model/Typed.vo Model/Inst.vo Spec/Tables.vo Spec/Canonical.vo Proofs/C03P.vo
+Properties/C03.vio: Properties/C03.v Model/Base.vio Model/Schema.vio Model/Typed.vio Model/Inst.vio Spec/Tables.vio Spec/Canonical.vio Proofs/C03P.vio
+Properties/C03.vos Properties/C03.vok Properties/C03.required_vos: Properties/C03.v Model/Base.vos Model/Schema.vos Model/Typed.vos Model/Inst.vos Spec/Tables.vos Spec/Canonical.vos Proofs/C03P.vos
